@@ -1,7 +1,7 @@
 
 from __future__ import annotations
 
-from datetime import datetime, tzinfo
+from datetime import datetime, timezone, tzinfo
 
 from .. import Params, Parseable
 from ..exceptions import InvalidContent
@@ -24,7 +24,11 @@ class DateTime(Parseable[datetime]):
         super().__init__()
         if when.tzinfo is None:
             # local time, with the offset in force at that date
-            when = when.astimezone()
+            try:
+                when = when.astimezone()
+            except (OverflowError, ValueError):
+                # at the very ends of the calendar
+                when = when.replace(tzinfo=timezone.utc)
         self.when = when
         self._raw = raw
 
